@@ -191,7 +191,9 @@ func (db *PreparedStmtDB) QueryRowContext(ctx context.Context, query string, arg
 	if err == nil {
 		return stmt.QueryRowContext(ctx, args...)
 	}
-	return &sql.Row{}
+	// a zero sql.Row panics when scanned: run the query unprepared, the row then
+	// reports the error
+	return db.ConnPool.QueryRowContext(ctx, query, args...)
 }
 
 func (db *PreparedStmtDB) Ping() error {
@@ -260,7 +262,9 @@ func (tx *PreparedStmtTX) QueryRowContext(ctx context.Context, query string, arg
 	if err == nil {
 		return tx.Tx.StmtContext(ctx, stmt.Stmt).QueryRowContext(ctx, args...)
 	}
-	return &sql.Row{}
+	// a zero sql.Row panics when scanned: run the query unprepared, the row then
+	// reports the error
+	return tx.Tx.QueryRowContext(ctx, query, args...)
 }
 
 func (tx *PreparedStmtTX) Ping() error {
